@@ -79,7 +79,8 @@ impl Tokenizer {
                         ));
                     }
                     // text separator
-                    ' ' | '\r' | '\n' | '\t' => {
+                    // X.680 12.1.6: white-space is HT, LF, VT, FF, CR and SPACE
+                    ' ' | '\r' | '\n' | '\t' | '\u{0B}' | '\u{0C}' => {
                         if let Some(token) = previous.take() {
                             tokens.push(token);
                         }
